@@ -497,6 +497,8 @@ def gen_cases(tier, seed):
     # Cache.id, so same-named sections of two templates sharing a region collide there by design of that plugin)
     for b in ("rec", "beaker-memory", "beaker-file"):
         yield {"kind": "inherit", "backend": b}
+    for b in ("rec", "beaker-memory", "beaker-file"):
+        yield {"kind": "raising", "backend": b}
     n = 4000 if tier == "quick" else 40000
     per = 10
     for i in range(n // per):
@@ -570,8 +572,67 @@ def run_inherit(case, res):
     res.nontrivial("c17-inherit", backend)
 
 
+def run_raising(case, res):
+    """a cached section whose body raises: the exception propagates, nothing is stored for its key, and the body runs
+    again on the next render"""
+    T = _st["Template"]
+    backend = case["backend"]
+    _st["counter"] += 1
+    uid = "%d_%d" % (os.getpid(), _st["counter"])
+    impl, base_args, dog = make_backend(backend, uid + "_rz")
+    Rec.store.clear()
+    Rec.created.clear()
+    del Rec.log[:]
+    Rec.pass_context = False
+    reg = ' cache_region="%s"' % dog if dog else ""
+    forms = {
+        "def": '<%%def name="rb()" cached="True"%s>head ${maybe()} tail</%%def>[${rb()}]' % reg,
+        "block": '[<%%block name="rb" cached="True"%s>head ${maybe()} tail</%%block>]' % reg,
+        "page": '<%%page cached="True"%s/>[head ${maybe()} tail]' % reg,
+        "nested": '<%%def name="o()"><%%def name="rb()" cached="True"%s>head ${maybe()} tail</%%def>${rb()}</%%def>[${o()}]' % reg,
+        "buffered-def": '<%%def name="rb()" cached="True" buffered="True"%s>head ${maybe()} tail</%%def>[${rb()}]' % reg,
+    }
+    for form, text in forms.items():
+        t = T(text, uri="/rz%s/%s.html" % (uid, form), cache_impl=impl, cache_args=dict(base_args))
+        state = {"armed": True, "runs": 0}
+
+        class Planted(Exception):
+            pass
+
+        def maybe():
+            state["runs"] += 1
+            if state["armed"]:
+                raise Planted("planted")
+            return "ok%d" % state["runs"]
+
+        what = "backend=%s, cached %s whose body raises" % (backend, form)
+        res.evaluations += 1
+        res.count("raising_cached_bodies")
+        try:
+            out = t.render_unicode(maybe=maybe)
+            res.violate("cached-body-exception-swallowed", "%s: the first render returned %r instead of raising" % (what, out))
+        except Planted:
+            pass
+        except Exception as e:
+            res.violate("cached-body-wrong-exception", "%s: raised %s: %s" % (what, type(e).__name__, e))
+        state["armed"] = False
+        try:
+            out2 = t.render_unicode(maybe=maybe)
+            out3 = t.render_unicode(maybe=maybe)
+        except Exception as e:
+            res.violate("cached-body-after-failure", "%s: the render after the failed one raised %s: %s" % (what, type(e).__name__, e))
+            continue
+        if out2 != "[head ok2 tail]" or out3 != out2 or state["runs"] != 2:
+            res.violate("cached-body-after-failure", "%s: after a failed first render the next two renders gave %r and %r with %d body runs; expected '[head ok2 tail]' twice with 2 runs" % (
+                what, out2, out3, state["runs"]), witness="cached section whose first body execution raised")
+    res.nontrivial("c17-raising", backend)
+
+
 def run_case(case):
     res = common.CaseResult()
+    if case["kind"] == "raising":
+        run_raising(case, res)
+        return res
     if case["kind"] == "inherit":
         run_inherit(case, res)
         return res
